@@ -176,6 +176,9 @@ impl Ldap {
         op: LdapOp,
         req: Tag,
     ) -> Result<(LdapResult, Exop, SaslCreds)> {
+        // Search options apply to the next operation only. A Search has taken them before
+        // getting here (SearchStream::start_inner()); any other operation discards them.
+        self.search_opts = None;
         let id = self.next_msgid();
         self.last_id = id;
         let (tx, rx) = oneshot::channel();
